@@ -210,7 +210,7 @@ class Generator:
         rel, path = pos[0], pos[1]
         it = self.find(rel, path)
         sf = self.source(rel)
-        text = sf.src[sf.toks[it.body_open].start:sf.toks[it.body_close].end]
+        text = _strip_comments(sf.src[sf.toks[it.body_open].start:sf.toks[it.body_close].end])   # E0: comments dropped
         sig = frm = to = None
         fromafter = False   # `//@fromafter <<<a>>>`: the region starts just AFTER the anchor
         until = False   # `//@until <<<a>>>`: the region ends just BEFORE the anchor; `//@from <<<^>>>`: starts at the body's first statement
@@ -474,6 +474,9 @@ class Generator:
             raise AnchorLost("fn %s has no body" % path)
         sig = sf.src[it.start:toks[it.body_open].start]
         body = sf.src[toks[it.body_open].start:toks[it.body_close].end]
+        if not opts.get("plain"):
+            # E0: comments of the body are dropped (anchors then do not depend on them); nothing executable is touched
+            body = _strip_comments(body)
         sig = _strip_comments(sig).rstrip()
         in_trait_impl = "@" in path or opts.get("vis") == "keep"
         if not in_trait_impl:
